@@ -57,7 +57,9 @@ def _gen_op(rng, kind, cur, big):
             ent = [s, e, rng.choice(WS_LABELS)]
         else:
             ent = [t(), rng.choice(WS_LABELS)]
-        return {"op": op, "e": ent, "mode": rng.choice(list(tierops.INS))}
+        # collisionReportingMode='error' is accepted at run time (the type hint lists silence|warning): the insert is
+        # carried out and CollisionError raised afterwards; whatever the tier holds then must still be well-formed
+        return {"op": op, "e": ent, "mode": rng.choice(list(tierops.INS)), "report": rng.choice(["silence", "silence", "warning", "error"])}
     if op == "delete":
         if cur["entries"] and rng.random() < 0.8:
             return {"op": op, "e": list(rng.choice(cur["entries"]))}
@@ -283,7 +285,8 @@ def emit(case, r):
         if err is not None:
             return None
         return "States%s %s" % (kind, core.clist(["(%s, %s)" % (ct(rk), core.cbool(v))]))
-    if case["scale"][0] == "decimal":
+    if case["scale"][0] == "decimal" or any(o.get("report") == "error" for o in case["args"]["ops"]):
+        # states only: rounding (decimal grid) or the raise-after-insert of the undocumented reporting mode are not modelled
         return "States%s %s" % (kind, core.clist(["(%s, %s)" % (ct(rk), core.cbool(v)) for _, st, v, rk in r["ok"]]))
     items = []
     for o, (err, st, v, _rk) in zip(case["args"]["ops"], r["ok"]):
